@@ -3,11 +3,12 @@
    the extracted inductives; no Extract Constant. *)
 Require Extraction.
 From Coq Require Import ExtrOcamlBasic.
-From Adept Require Import Scalar GapList Tape Jacobian Buffers.
+From Adept Require Import Scalar GapList Tape Jacobian Buffers View.
 Extraction "model.ml"
   GapList.init GapList.register1 GapList.registerN GapList.unregisterN GapList.new_recording GapList.step GapList.run
   Scalar.mkOps
   Tape.fwd_sweep Tape.rev_sweep Tape.unit_vec Tape.zero_vec Tape.upd Tape.drop_zeros Tape.dot
   Jacobian.jac_fwd_serial Jacobian.jac_rev_serial Jacobian.jac_auto Jacobian.jac_fwd_omp Jacobian.jac_rev_omp
   Buffers.bstep Buffers.brun Buffers.binit Buffers.safe Buffers.site_trace
+  View.all_ix View.res View.addr View.apply_op View.apply_ops View.adm_op View.adm_ops View.den_ops View.parent View.slice_checked View.chk_slice View.lin_packed
   Jacobian.apply_writes Jacobian.omp_blocks Jacobian.J_fwd Jacobian.J_rev.
